@@ -56,10 +56,13 @@ Proof. intros [z|] H; simpl in *; [lia | reflexivity]. Qed.
 Lemma warn_at_ok_of_bad : forall w m, opt_neg w = false -> warn_at_vs_limit_bad w m = false -> opt_warn_at_ok w m = true.
 Proof. intros [w|] [m|] H1 H2; simpl in *; try reflexivity; lia. Qed.
 
-Lemma date_ok_of_guard : forall (b : bool) o,
-  (b && match o with Some d => negb (date_valid d) | None => false end) = false ->
-  b = true -> opt_date_ok o = true.
-Proof. intros b [d|] H Hb; subst; simpl in *; [destruct (date_valid d); simpl in *; congruence | reflexivity]. Qed.
+Lemma date_ok_of_guard : forall bh o,
+  (b_expires bh && match o with Some d => negb (gate_date bh d) | None => false end) = false ->
+  b_expires bh = true -> b_strict_dates bh = true -> opt_date_ok o = true.
+Proof.
+  intros bh [d|] H Hb Hs; [|reflexivity]. unfold gate_date in H. rewrite Hb, Hs in H. simpl in *.
+  destruct (date_strict d); simpl in *; congruence.
+Qed.
 
 (* ------------------------------------------------------------------ overrides leave most fields alone *)
 
@@ -168,7 +171,7 @@ Lemma content_rule_parts : forall bh r k1 k2,
   content_rule_sem bh k1 r = None ->
   guard (negb (cr_pattern_ok r)) RGlobContentRule k2 0 = None ->
   (b_rule_wt bh = false -> opt_thr_bad (cr_warn_threshold r) = false) ->
-  (b_expires bh = false -> opt_date_ok (cr_expires r) = true) ->
+  (b_expires bh && b_strict_dates bh = false -> opt_date_ok (cr_expires r) = true) ->
   content_rule_dom r = true.
 Proof.
   intros bh r k1 k2 H Hp Hw He. unfold content_rule_sem in H. split_checks H.
@@ -179,7 +182,8 @@ Proof.
   assert (P3 : match cr_warn_at r with Some w => w <? cr_max_lines r | None => true end = true).
   { destruct (cr_warn_at r); [lia | reflexivity]. }
   assert (P4 : opt_date_ok (cr_expires r) = true).
-  { destruct (b_expires bh) eqn:E; [eapply date_ok_of_guard; [exact H | reflexivity] | auto]. }
+  { destruct (b_expires bh) eqn:E; destruct (b_strict_dates bh) eqn:E2;
+      try (apply He; reflexivity). eapply date_ok_of_guard; [rewrite E; exact H | exact E | exact E2]. }
   rewrite P1, P2, P3, P4. reflexivity.
 Qed.
 
@@ -240,7 +244,7 @@ Lemma struct_rule_parts : forall bh r k1 k2 k3 k4 k5 k6 k7,
    first_err (fun j s => match s with SDirected _ ok _ => guard (negb ok) RGlobSiblingMatch k6 j | SGroup _ => None end)
              (sr_siblings r) 0) = None ->
   allowlist_rule_build k7 r = None ->
-  (b_expires bh = false -> opt_date_ok (sr_expires r) = true) ->
+  (b_expires bh && b_strict_dates bh = false -> opt_date_ok (sr_expires r) = true) ->
   struct_rule_dom r = true.
 Proof.
   intros bh r k1 k2 k3 k4 k5 k6 k7 Hsem Hlim Hsib Hmix Hscope Hbs Hal Hex.
@@ -254,7 +258,8 @@ Proof.
     apply first_err_Forall in Hsib. apply first_err_Forall in Hbs. rewrite Forall_forall in Hsib, Hbs.
     destruct (Hsib s Hin) as [j Hj]. destruct (Hbs s Hin) as [j2 Hj2]. eapply sibling_parts; eassumption. }
   assert (Ex : opt_date_ok (sr_expires r) = true).
-  { destruct (b_expires bh) eqn:E; [eapply date_ok_of_guard; [exact Hsem | reflexivity] | auto]. }
+  { destruct (b_expires bh) eqn:E; destruct (b_strict_dates bh) eqn:E2;
+      try (apply Hex; reflexivity). eapply date_ok_of_guard; [rewrite E; exact Hsem | exact E | exact E2]. }
   rewrite S0, Sib, Ex, A1, A2, A3, A4, A5, A6, A7.
   rewrite (limit_ok_of_bad _ G6), (limit_ok_of_bad _ G7), (limit_ok_of_bad _ Hlim).
   rewrite (thr_ok_of_bad _ G), (thr_ok_of_bad _ G0), (thr_ok_of_bad _ G1).
@@ -312,9 +317,9 @@ Qed.
 
 Lemma known_false_parts : forall bh c f, known17 bh c f = false ->
   k_rule_warn_threshold bh c = false /\ k_expires bh c = false /\ k_cli_after_validation bh c f = false /\
-  k_overflow bh c = false /\ k_dormant_glob bh c = false.
+  k_overflow bh c = false /\ k_dormant_glob bh c = false /\ k_lenient_date bh c = false.
 Proof.
-  intros bh c f H. unfold known17 in H. orb_false. auto.
+  intros bh c f H. unfold known17 in H. orb_false. repeat split; assumption.
 Qed.
 
 Lemma existsb_false_forall : forall {A} (g : A -> bool) l, existsb g l = false -> forall x, In x l -> g x = false.
@@ -323,12 +328,27 @@ Proof.
   assert (existsb g l = true) by (apply existsb_exists; exists x; auto). congruence.
 Qed.
 
+Lemma dates_from_known : forall bh c,
+  k_expires bh c = false -> k_lenient_date bh c = false -> b_expires bh && b_strict_dates bh = false ->
+  (forall o, (exists r, In r (c_rules c) /\ o = cr_expires r) \/ (exists r, In r (s_rules c) /\ o = sr_expires r) -> opt_date_ok o = true).
+Proof.
+  intros bh c K2 K6 Eb.
+  assert (E : existsb (fun r => negb (opt_date_ok (cr_expires r))) (c_rules c) ||
+              existsb (fun r => negb (opt_date_ok (sr_expires r))) (s_rules c) = false).
+  { unfold k_expires in K2. unfold k_lenient_date in K6.
+    destruct (b_expires bh); destruct (b_strict_dates bh); simpl in *; try discriminate; assumption. }
+  apply orb_false_iff in E. destruct E as [E1 E2].
+  intros o [[r [Hin Ho]] | [r [Hin Ho]]]; subst o.
+  - pose proof (existsb_false_forall _ _ E1 r Hin) as Hx. simpl in Hx. apply negb_false_true in Hx. exact Hx.
+  - pose proof (existsb_false_forall _ _ E2 r Hin) as Hx. simpl in Hx. apply negb_false_true in Hx. exact Hx.
+Qed.
+
 Theorem gate_sound_modulo_known : forall bh p d f c,
   gate_check bh p d f = Accept c -> known17 bh c f = false -> in_domain c = true.
 Proof.
   intros bh p d f c H Hk.
   destruct (gate_check_accept_inv _ _ _ _ _ H) as (c0 & Hd & Hc & Hv & Hs0 & Hctx & Hre).
-  destruct (known_false_parts _ _ _ Hk) as (K1 & K2 & K3 & K4 & K5).
+  destruct (known_false_parts _ _ _ Hk) as (K1 & K2 & K3 & K4 & K5 & K6).
   destruct (validate_semantics_ok _ _ _ Hs0) as (S1 & S2 & S3 & S4).
   (* the semantic checks that the overrides can disturb hold of the effective configuration *)
   assert (Sem : sem_after_overrides bh c).
@@ -377,10 +397,7 @@ Proof.
     eapply content_rule_parts; try eassumption.
     - intros Eb. unfold k_rule_warn_threshold in K1. rewrite Eb in K1. simpl in K1.
       exact (existsb_false_forall _ _ K1 r Hin).
-    - intros Eb. unfold k_expires in K2. rewrite Eb in K2. simpl in K2.
-      apply orb_false_iff in K2. destruct K2 as [K2 _].
-      pose proof (existsb_false_forall _ _ K2 r Hin) as Hx. simpl in Hx.
-      apply negb_false_true in Hx. exact Hx. }
+    - intros Eb. apply (dates_from_known bh c K2 K6 Eb). left. exists r. split; [exact Hin | reflexivity]. }
   (* structure lists, depending on whether the scanner configuration is built *)
   assert (Lists : all_ok (s_count_exclude c) = true /\ all_ok (map snd (s_deny_patterns c)) = true /\
                   all_ok (s_deny_files c) = true /\ all_ok (s_deny_dirs c) = true /\
@@ -415,10 +432,7 @@ Proof.
     destruct (M2 r Hin) as [k4 F4]. destruct (Hbr r Hin) as [k5 F5]. destruct (Hbs r Hin) as [k6 F6].
     destruct (QR r Hin) as [k7 F7].
     eapply struct_rule_parts; try eassumption.
-    intros Eb. unfold k_expires in K2. rewrite Eb in K2. simpl in K2.
-    apply orb_false_iff in K2. destruct K2 as [_ K2].
-    pose proof (existsb_false_forall _ _ K2 r Hin) as Hx. simpl in Hx.
-    apply negb_false_true in Hx. exact Hx. }
+    intros Eb. apply (dates_from_known bh c K2 K6 Eb). right. exists r. split; [exact Hin | reflexivity]. }
   unfold in_domain.
   rewrite Ev, E1, E2, CR, SR, Q1, Q2, Q3, Q4, Q5, Q6, St1, St2, St3.
   rewrite (limit_ok_of_bad _ L1), (limit_ok_of_bad _ L2), (limit_ok_of_bad _ L3).
@@ -430,7 +444,7 @@ Qed.
 
 (* ------------------------------------------------------------------ repaired tree: no class left *)
 
-Definition repaired : behav := Build_behav true true true true true true.
+Definition repaired : behav := Build_behav true true true true true true true.
 
 Lemma known17_repaired : forall c f, known17 repaired c f = false.
 Proof. intros c f. reflexivity. Qed.
@@ -573,3 +587,11 @@ Definition doc_bad_regex : config := mk_config 600 bits_0_9 None [] None None []
 Definition doc_overflow : config := mk_config 600 bits_0_9 None [] None None [] 0 [] [] (Some s_40e12w).
 (* D35 document *)
 Definition doc_dormant : config := mk_config 600 bits_0_9 None [] None None [false] 0 [] [] None.
+
+(* D61 documents: D19 repaired (expires is validated) but with the lenient parser *)
+Definition pre_d61 : behav := Build_behav true true true true true true false.
+(* 2025-02-31 and +2025-2-3 *)
+Definition s_feb31 : str := [50;48;50;53;45;48;50;45;51;49].
+Definition s_plus_unpadded : str := [43;50;48;50;53;45;50;45;51].
+Definition doc_feb31 : config := mk_config 600 bits_0_9 None [mk_rule true 10 None (Some s_feb31)] None None [] 0 [] [] None.
+Definition doc_plus_date : config := mk_config 600 bits_0_9 None [mk_rule true 10 None (Some s_plus_unpadded)] None None [] 0 [] [] None.
